@@ -24,6 +24,8 @@ def occKey (len : Nat) (g : Nat → Nat) : List Nat := sortNat ((List.range len)
 /-- an occurrence in the sense of the distance filter -/
 structure DistOccurrence (inp : FindInput) (g : Nat → Nat) (n : Nat → Int × Int × Int) : Prop where
   idx_lt : ∀ k, k < inp.ppos.length → g k < inp.pos.length
+  /-- DISTINCT atoms: one structure atom stands for one pattern atom only -/
+  inj : ∀ i j, j < i → i < inp.ppos.length → g j ≠ g i
   home : n 0 = (0, 0, 0)
   elem : ∀ k, k < inp.ppos.length → inp.elems.getD (g k) "" = inp.pelems.getD k ""
   dist : ∀ i j, j < i → i < inp.ppos.length →
